@@ -12,9 +12,7 @@ import (
 
 	"verifsim/kit"
 
-	_ "verifsim/worlds/stateworld"
-	_ "verifsim/worlds/votedbworld"
-	_ "verifsim/worlds/networld"
+	_ "verifsim/worlds/evmworld"
 )
 
 var userArgs []string
